@@ -2,6 +2,7 @@ SPECIFICATION Spec
 CONSTANTS MaxBlock = 5 MaxOps = 9 MaxLen = 12
   Ms = {0, 1, 2}
   Takes = {0, 1, 2}
+  Srcs = {"iter", "list", "tuple"}
   SplitBufs <- SplitBufsThorough
   Variant = "intended"
 INVARIANT Emitted
